@@ -16,6 +16,8 @@
 (*   End    {}                         end of the stream                   *)
 (*   AddOut {o, n, f, m, r} / DelOut {o} / SSec {k, del, mod}               *)
 (*   JAdd {i, r} / JDel {i} / JSec {i, k, out, mod}                         *)
+(*   JFd {i, r, refused}   set_flow_def on input i answered r (refused = the*)
+(*                         number of allocations refused during the call)  *)
 (*   San    {...}                      sanitizer report: no action accepts  *)
 (*                                                                         *)
 (* The conditions on the INPUT of the pipes (well-formed cutting, a lost    *)
@@ -143,6 +145,12 @@ TJDel ==
     /\ jins' = jins \ {Tr[l].i}
     /\ UNCHANGED <<pipe, secs, maxpay, done, off, pdisc, sync, cur, must, out, ended, present, sok, jok>>
 
+\* a flow definition update, applied or not, leaves the input in place
+TJFd ==
+    /\ IsEv("JFd") /\ pipe = "join" /\ ~ended
+    /\ Tr[l].i \in jins
+    /\ UNCHANGED <<pipe, secs, maxpay, done, off, pdisc, sync, cur, must, out, ended, present, sok, jins, jok>>
+
 TJSec ==
     /\ IsEv("JSec") /\ pipe = "join" /\ ~ended
     /\ LET e == Tr[l] IN
@@ -153,7 +161,7 @@ TJSec ==
 TInit == /\ l = 1 /\ pipe = "none" /\ secs = <<>> /\ maxpay = 0 /\ done = 0 /\ off = 0 /\ pdisc = FALSE
          /\ sync = FALSE /\ cur = 0 /\ must = <<>> /\ out = <<>> /\ ended = FALSE
          /\ present = {} /\ sok = TRUE /\ jins = {} /\ jok = TRUE
-TNext == TReset \/ TPay \/ TEnd \/ TAddOut \/ TDelOut \/ TSSec \/ TJAdd \/ TJDel \/ TJSec
+TNext == TReset \/ TPay \/ TEnd \/ TAddOut \/ TDelOut \/ TSSec \/ TJAdd \/ TJDel \/ TJFd \/ TJSec
 TSpec == TInit /\ [][TNext]_vars
 
 (***************************************************************************)
